@@ -86,11 +86,11 @@ theorem lookup_setField (f g : Nat) (v : Val) (l : List (Nat × Val)) :
 /-- what `wfClasses` gives for every class -/
 structure ClassWF (P : Prog) (c : Nat) (cd : ClassDef) : Prop where
   mro : mroCoherent P c cd = true
-  attrs : attrsInvariant P cd = true
+  attrs : attrsInvariant P c cd = true
   init : initComplete P cd = true
 
 theorem wfClasses_get (P : Prog) : ∀ (l : List ClassDef) (c0 : Nat), wfClasses P c0 l = true →
-    ∀ i cd, l[i]? = some cd → ClassWF P (c0 + i) cd := by
+    ∀ (i : Nat) (cd : ClassDef), l[i]? = some cd → ClassWF P (c0 + i) cd := by
   intro l
   induction l with
   | nil => intro c0 _ i cd h; simp at h
@@ -112,142 +112,57 @@ theorem WF.cls {P : Prog} (h : WF P) {c : Nat} {cd : ClassDef} (hc : P.classes[c
 theorem mroOf_eq {P : Prog} {c : Nat} {cd : ClassDef} (hc : P.classes[c]? = some cd) : mroOf P c = cd.mro := by
   simp [mroOf, hc]
 
-/-- under `WF` the MRO of a class is the class followed by the MRO of its base -/
-theorem mro_unfold {P : Prog} (h : WF P) {c : Nat} {cd : ClassDef} (hc : P.classes[c]? = some cd) :
-    (cd.base = none ∧ mroOf P c = [c]) ∨ (∃ b, cd.base = some b ∧ b < c ∧ mroOf P c = c :: mroOf P b) := by
-  have w := (h.cls hc).mro
-  unfold mroCoherent at w
-  rw [mroOf_eq hc]
-  cases hb : cd.base with
-  | none => left; simp [hb] at w; exact ⟨rfl, w⟩
-  | some b =>
-    right; simp [hb] at w
-    exact ⟨b, rfl, w.1, w.2⟩
+theorem mroOf_none {P : Prog} {c : Nat} (hc : P.classes[c]? = none) : mroOf P c = [] := by
+  simp [mroOf, hc]
 
 theorem isSub_iff {P : Prog} {c d : Nat} : isSub P c d = true ↔ d ∈ mroOf P c := by
   simp [isSub]
 
+/-- under `WF` the MRO of a class starts with the class -/
+theorem mro_head {P : Prog} (h : WF P) {c : Nat} {cd : ClassDef} (hc : P.classes[c]? = some cd) :
+    ∃ t, mroOf P c = c :: t := by
+  have w := (h.cls hc).mro
+  simp only [mroCoherent, Bool.and_eq_true] at w
+  rw [mroOf_eq hc]
+  cases hm : cd.mro with
+  | nil => rw [hm] at w; simp at w
+  | cons a t =>
+    rw [hm] at w
+    simp at w
+    exact ⟨t, by rw [w.1]⟩
+
 theorem isSub_refl {P : Prog} (h : WF P) {c : Nat} {cd : ClassDef} (hc : P.classes[c]? = some cd) : isSub P c c = true := by
   rw [isSub_iff]
-  rcases mro_unfold h hc with ⟨_, e⟩ | ⟨b, _, _, e⟩ <;> simp [e]
+  obtain ⟨t, e⟩ := mro_head h hc
+  simp [e]
 
-theorem mroOf_none {P : Prog} {c : Nat} (hc : P.classes[c]? = none) : mroOf P c = [] := by
-  simp [mroOf, hc]
+/-- every member of an MRO is a class of the table, and its own MRO is contained in it -/
+theorem mro_closed {P : Prog} (h : WF P) {c d : Nat} (hd : d ∈ mroOf P c) :
+    (∃ cd, P.classes[d]? = some cd) ∧ ∀ e, e ∈ mroOf P d → e ∈ mroOf P c := by
+  cases hc : P.classes[c]? with
+  | none => simp [mroOf_none hc] at hd
+  | some cd =>
+    have w := (h.cls hc).mro
+    simp only [mroCoherent, Bool.and_eq_true, List.all_eq_true] at w
+    rw [mroOf_eq hc] at hd ⊢
+    have := w.2 d hd
+    constructor
+    · cases hdc : P.classes[d]? with
+      | none => rw [hdc] at this; simp at this
+      | some dd => exact ⟨dd, rfl⟩
+    · intro e he
+      have := this.2 e he
+      simpa using this
 
-/-- every member of an MRO is a class of the table, and its own MRO is a suffix -/
-theorem mro_suffix {P : Prog} (h : WF P) : ∀ (c d : Nat), d ∈ mroOf P c → ∃ pre, mroOf P c = pre ++ mroOf P d := by
-  intro c
-  induction c using Nat.strongRecOn with
-  | _ c ih =>
-    intro d hd
-    cases hc : P.classes[c]? with
-    | none => simp [mroOf_none hc] at hd
-    | some cd =>
-      rcases mro_unfold h hc with ⟨_, e⟩ | ⟨b, _, hlt, e⟩
-      · rw [e] at hd; simp at hd; subst hd; exact ⟨[], by simp⟩
-      · rw [e] at hd
-        simp at hd
-        rcases hd with rfl | hd
-        · exact ⟨[], by simp⟩
-        · obtain ⟨pre, hp⟩ := ih b hlt d hd
-          exact ⟨c :: pre, by rw [e, hp]; simp⟩
+theorem mro_mem_cls {P : Prog} (h : WF P) (c d : Nat) (hd : d ∈ mroOf P c) : ∃ cd, P.classes[d]? = some cd :=
+  (mro_closed h hd).1
 
 theorem isSub_trans {P : Prog} (h : WF P) {a b c : Nat} (h1 : isSub P a b = true) (h2 : isSub P b c = true) :
     isSub P a c = true := by
   rw [isSub_iff] at *
-  obtain ⟨pre, hp⟩ := mro_suffix h a b h1
-  rw [hp]; exact List.mem_append_right _ h2
-
-theorem mro_head {P : Prog} (h : WF P) {d : Nat} {cd : ClassDef} (hd : P.classes[d]? = some cd) :
-    ∃ t, mroOf P d = d :: t := by
-  rcases mro_unfold h hd with ⟨_, e⟩ | ⟨b, _, _, e⟩ <;> exact ⟨_, e⟩
-
-theorem mro_mem_cls {P : Prog} (h : WF P) : ∀ (c d : Nat), d ∈ mroOf P c → ∃ cd, P.classes[d]? = some cd := by
-  intro c
-  induction c using Nat.strongRecOn with
-  | _ c ih =>
-    intro d hd
-    cases hc : P.classes[c]? with
-    | none => simp [mroOf_none hc] at hd
-    | some cd =>
-      rcases mro_unfold h hc with ⟨_, e⟩ | ⟨b, _, hlt, e⟩
-      · rw [e] at hd; simp at hd; subst hd; exact ⟨cd, hc⟩
-      · rw [e] at hd; simp at hd
-        rcases hd with rfl | hd
-        · exact ⟨cd, hc⟩
-        · exact ih b hlt d hd
-
-/-- single inheritance: two superclasses of one class are comparable -/
-theorem mro_linear {P : Prog} (h : WF P) {k c d : Nat} (hc : c ∈ mroOf P k) (hd : d ∈ mroOf P k) :
-    isSub P c d = true ∨ isSub P d c = true := by
-  obtain ⟨p1, h1⟩ := mro_suffix h k c hc
-  obtain ⟨p2, h2⟩ := mro_suffix h k d hd
-  obtain ⟨cdc, hcc⟩ := mro_mem_cls h k c hc
-  obtain ⟨cdd, hdd⟩ := mro_mem_cls h k d hd
-  obtain ⟨tc, htc⟩ := mro_head h hcc
-  obtain ⟨td, htd⟩ := mro_head h hdd
-  rw [h1] at h2
-  rcases List.append_eq_append_iff.mp h2 with ⟨a, _, ha⟩ | ⟨a, _, ha⟩
-  · -- mroOf c = a ++ mroOf d
-    left; rw [isSub_iff, ha, htd]; simp
-  · right; rw [isSub_iff, ha, htc]; simp
+  exact (mro_closed h h1).2 c h2
 
 /-! ### attribute and method lookup along the MRO -/
-
-theorem lookupAttr_unfold {P : Prog} (h : WF P) {c : Nat} {cd : ClassDef} (hc : P.classes[c]? = some cd) (f : Nat) :
-    lookupAttr P c f = match ownAttr P c f with
-      | some T => some T
-      | none => match cd.base with
-        | some b => lookupAttr P b f
-        | none => none := by
-  unfold lookupAttr
-  rcases mro_unfold h hc with ⟨hb, e⟩ | ⟨b, hb, _, e⟩
-  · rw [e, hb]; simp only [findAttr]; cases ownAttr P c f <;> rfl
-  · rw [e, hb]; simp only [findAttr]; cases ownAttr P c f <;> rfl
-
-theorem lookupMeth_unfold {P : Prog} (h : WF P) {c : Nat} {cd : ClassDef} (hc : P.classes[c]? = some cd) (m : Nat) :
-    lookupMeth P c m = match ownMeth P c m with
-      | some fd => some (c, fd)
-      | none => match cd.base with
-        | some b => lookupMeth P b m
-        | none => none := by
-  unfold lookupMeth
-  rcases mro_unfold h hc with ⟨hb, e⟩ | ⟨b, hb, _, e⟩
-  · rw [e, hb]; simp only [findMeth]; cases ownMeth P c m <;> rfl
-  · rw [e, hb]; simp only [findMeth]; cases ownMeth P c m <;> rfl
-
-/-- F18 excluded: an attribute has the same declared type seen from a subclass -/
-theorem lookupAttr_sub {P : Prog} (h : WF P) : ∀ (c d f : Nat) (T : Ty), isSub P c d = true →
-    lookupAttr P d f = some T → lookupAttr P c f = some T := by
-  intro c
-  induction c using Nat.strongRecOn with
-  | _ c ih =>
-    intro d f T hs hl
-    rw [isSub_iff] at hs
-    cases hc : P.classes[c]? with
-    | none => simp [mroOf_none hc] at hs
-    | some cd =>
-      rcases mro_unfold h hc with ⟨_, e⟩ | ⟨b, hb, hlt, e⟩
-      · rw [e] at hs; simp at hs; subst hs; exact hl
-      · rw [e] at hs; simp at hs
-        rcases hs with rfl | hs
-        · exact hl
-        · have hbT := ih b hlt d f T (isSub_iff.mpr hs) hl
-          rw [lookupAttr_unfold h hc, hb]
-          cases ho : ownAttr P c f with
-          | none => simpa using hbT
-          | some T1 =>
-            -- redeclared: WF forces the same type
-            have w := (h.cls hc).attrs
-            unfold attrsInvariant at w
-            rw [hb] at w
-            simp only [List.all_eq_true] at w
-            have hm : (f, T1) ∈ cd.attrs := by
-              unfold ownAttr at ho; rw [hc] at ho; exact lookup_mem ho
-            have := w (f, T1) hm
-            simp only [hbT] at this
-            simp at this
-            simp [this]
 
 theorem findAttr_some_mem {P : Prog} {f : Nat} : ∀ (l : List Nat) (T : Ty), findAttr P f l = some T →
     ∃ k, k ∈ l ∧ ownAttr P k f = some T := by
@@ -278,6 +193,44 @@ theorem findMeth_some_mem {P : Prog} {m : Nat} : ∀ (l : List Nat) (k : Nat) (f
       rw [ho] at h
       obtain ⟨hk, hk'⟩ := ih k fd h
       exact ⟨List.mem_cons_of_mem _ hk, hk'⟩
+
+theorem findAttr_of_mem {P : Prog} {f : Nat} : ∀ (l : List Nat) (k : Nat) (T : Ty), k ∈ l → ownAttr P k f = some T →
+    ∃ T', findAttr P f l = some T' := by
+  intro l
+  induction l with
+  | nil => intro k T h; simp at h
+  | cons k0 r ih =>
+    intro k T hk ho
+    simp only [findAttr]
+    cases h0 : ownAttr P k0 f with
+    | some T0 => exact ⟨T0, rfl⟩
+    | none =>
+      simp at hk
+      rcases hk with rfl | hk
+      · rw [ho] at h0; cases h0
+      · exact ih k T hk ho
+
+/-- F18 excluded: an attribute has the same declared type seen from a subclass -/
+theorem lookupAttr_sub {P : Prog} (h : WF P) (c d f : Nat) (T : Ty) (hs : isSub P c d = true)
+    (hl : lookupAttr P d f = some T) : lookupAttr P c f = some T := by
+  rw [isSub_iff] at hs
+  obtain ⟨k, hk, hown⟩ := findAttr_some_mem _ _ hl
+  have hkc : k ∈ mroOf P c := (mro_closed h hs).2 k hk
+  cases hc : P.classes[c]? with
+  | none => simp [mroOf_none hc] at hs
+  | some cd =>
+    have w := (h.cls hc).attrs
+    simp only [attrsInvariant, List.all_eq_true] at w
+    rw [mroOf_eq hc] at hkc
+    have := w k hkc
+    unfold ownAttr at hown
+    cases hkd : P.classes[k]? with
+    | none => rw [hkd] at hown; cases hown
+    | some kd =>
+      rw [hkd] at hown this
+      simp only [List.all_eq_true] at this
+      have := this (f, T) (lookup_mem hown)
+      simpa using this
 
 /-! ## Values in types -/
 
